@@ -234,6 +234,10 @@ def run_candidate(c):
                         bad.append("step %d: decoded tokens %s expected %s" % (i, got, exp["tokens_abs"]))
                 if exp.get("tokens_null") and o.get("tokens") is not None:
                     bad.append("step %d: expected null token result" % i)
+        if kind == "lsp":
+            for i in c.get("expect_nonempty", []):
+                if i >= len(obs["session"]) or not (obs["session"][i].get("publish") or {}).get("diags"):
+                    bad.append("step %d: expected at least one diagnostic" % i)
         obs["mismatches"] = bad
         return bool(bad), obs
 
